@@ -52,3 +52,10 @@ PREDICATES = {}
 def predicate(fn):
     PREDICATES[fn.__name__] = fn
     return fn
+
+
+@predicate
+def f18_minimal_imap(v, f):
+    """observed edge set is exactly what the recorded algorithm defect predicts"""
+    d = v.get("detail") or {}
+    return v.get("site") == "minimal_imap" and "f18_model_edges" in d and sorted(map(list, v["observed"])) == d["f18_model_edges"]
